@@ -645,10 +645,10 @@ func runCLI(c *engine.Ctx, shard string, p *program, fs []filter) (stdout string
 
 // ---------------------------------------------------------------------------------------------------------
 
-// sel0 is the first passing case (or case 0).
-func sel0(p *program) int {
+// classFirst is the first case with the given outcome (or case 0).
+func classFirst(p *program, class int) int {
 	for k := range p.cases {
-		if p.cases[k].outcome == 0 {
+		if p.cases[k].outcome == class {
 			return k
 		}
 	}
@@ -829,35 +829,41 @@ func run(c *engine.Ctx) {
 						}
 						sel, _ := p.selected(fs)
 						got := [3]int{nums[2], nums[4], nums[5]}
-						// executed set as far as the output identifies it: failed/errored cases are listed by name
+						// executed multiset as far as the output identifies it: failed/errored cases are listed by name in the
+						// failure list; beyond that the summary gives the number of executed cases per outcome class. Those are
+						// attributed to the not yet listed cases of that class: selected ones first, then unselected ones
+						// (direction and size of a mismatch are exact, the identity of a mismatching case may not be).
 						var ran []int
-						for k := range p.cases {
-							if p.cases[k].outcome == 0 {
-								continue
-							}
-							cnt := strings.Count(out, "it "+p.cases[k].name+":\n")
-							for i := 0; i < cnt; i++ {
-								ran = append(ran, k)
-							}
-						}
-						// passing cases are identified only by their number: attribute them to the selected passing cases
-						// first and any surplus to unselected passing cases (direction and count of a mismatch are exact,
-						// the identity of a mismatching passing case is not)
-						left := got[0]
 						inSel := map[int]bool{}
 						for _, k := range sel {
 							inSel[k] = true
 						}
-						for pass := 0; pass < 2 && left > 0; pass++ {
-							for k := range p.cases {
-								if p.cases[k].outcome == 0 && inSel[k] == (pass == 0) && left > 0 {
-									ran = append(ran, k)
-									left--
+						for class := 0; class < 3; class++ {
+							left := got[class]
+							listed := map[int]bool{}
+							if class != 0 {
+								for k := range p.cases {
+									if p.cases[k].outcome != class {
+										continue
+									}
+									for i := strings.Count(out, "it "+p.cases[k].name+":\n"); i > 0; i-- {
+										ran = append(ran, k)
+										listed[k] = true
+										left--
+									}
 								}
 							}
-						}
-						for ; left > 0; left-- {
-							ran = append(ran, sel0(p)) // more passes than passing cases: some case ran twice
+							for pass := 0; pass < 2 && left > 0; pass++ {
+								for k := range p.cases {
+									if p.cases[k].outcome == class && !listed[k] && inSel[k] == (pass == 0) && left > 0 {
+										ran = append(ran, k)
+										left--
+									}
+								}
+							}
+							for ; left > 0; left-- {
+								ran = append(ran, classFirst(p, class)) // more runs than cases of the class: some case ran twice
+							}
 						}
 						sort.Ints(ran)
 						judge(r, p, fs, "cli", ran, exit == 1, true, "\n"+strings.TrimSpace(out))
